@@ -65,6 +65,8 @@ static void c02_history(rng_t *r,bytes_t hdr[3],bytes_t *aud,int naud,int ncalls
   vorbis_info_init(&d.vi); vorbis_comment_init(&d.vc); d.info_live=1;
   for(int c=0;c<ncalls;c++){
     int o=(int)rng_below(r,100); ogg_packet op; long ret=0;
+    if(d.dsp_live && d.info_live && d.vi.codec_setup && rng_chance(r,0.04)){ /* the flag may be flipped under a live decoder (the call is accepted): whatever comes out, nothing may be accessed out of bounds */
+      int hr=vorbis_synthesis_halfrate(&d.vi,(int)rng_below(r,2)); if(hr!=0&&hr!=-1) res_viol("C02","return-domain","halfrate %d",hr); res_count("halfrate_flips_under_a_live_decoder",1); d.lap_ok=0; }
     if(hdr_done<3 && o<55) o=0;              /* bias: get through the headers first, most of the time */
     if(hdr_done>=3 && d.dsp_live && o<70) o=40;
     if(hdr_done>=3 && !d.dsp_live && o<60) o=20;
